@@ -302,15 +302,15 @@ fn store_point(point: &mut Point, dim: Dimension, u: i32) {
 /// See <https://gitlab.freedesktop.org/freetype/freetype/-/blob/57617782464411201ce7bbc93b086c1b4d7d84a5/src/autofit/afhints.c#L1578>
 fn iup_shift(points: &mut [Point], p1_ix: usize, p2_ix: usize, ref_ix: usize) -> Option<()> {
     let ref_point = points.get(ref_ix)?;
-    let delta = ref_point.u - ref_point.v;
+    let delta = ref_point.u.wrapping_sub(ref_point.v);
     if delta == 0 {
         return Some(());
     }
     for point in points.get_mut(p1_ix..ref_ix)? {
-        point.u = point.v + delta;
+        point.u = point.v.wrapping_add(delta);
     }
     for point in points.get_mut(ref_ix + 1..=p2_ix)? {
-        point.u = point.v + delta;
+        point.u = point.v.wrapping_add(delta);
     }
     Some(())
 }
